@@ -281,6 +281,20 @@ func (m c03) Case(c *Ctx, r *RNG) {
 			break
 		}
 	}
+	// to-many lists that name the same ID more than once (a list, not a set, is what a resource holds)
+	if r.Chance(1, 3) {
+		for _, rs := range d.allResources() {
+			for k, v := range rs.ToMany {
+				if len(v) >= 1 && r.Bool() {
+					rs.ToMany[k] = append(append([]string{}, v...), v[r.Intn(len(v))])
+					if r.Chance(1, 3) {
+						rs.ToMany[k] = append(rs.ToMany[k], v[0], v[0])
+					}
+					c.Count("to_many_with_repeated_id")
+				}
+			}
+		}
+	}
 	// a mixed-type collection in which resources of different types have the same ID (users/1 next to articles/1)
 	shared := []int{}
 	if d.Kind == "collection" && d.Holder == "Resources" && len(d.Primary) >= 2 && r.Chance(1, 2) {
